@@ -1,6 +1,7 @@
 (* Props/C04.v — the reported best is the true best of everything kept, and never gets worse. *)
 From Coq Require Import ZArith Bool List Lia.
 From HV Require Import Ord Select SelectFacts Hist HistFacts.
+From HV Require Import GenAccessors GenEquivAccessors.
 Import ListNotations.
 
 (* python's max over the kept individuals: a member, no member strictly better in the problem's direction (first of the ties) *)
@@ -39,3 +40,29 @@ Proof. intros H. rewrite firstn_firstn. now rewrite Nat.min_l. Qed.
 
 Example C04_example : best_of false [5; 3; 9; 3]%Z = Some 3%Z /\ best_of true [5; 3; 9; 3]%Z = Some 9%Z.
 Proof. split; reflexivity. Qed.
+
+(* ---------------------------------------------------------------- the accessors TRANSLATED from the current
+   pyhms/demes/abstract_deme.py and pyhms/tree.py (Gen/GenAccessors.v): h = a deme's stored history (metaepochs -> generations -> fitness keys),
+   lv = the tree's levels of such histories.  python's max() on Individuals is best_of (first maximal element). *)
+Theorem C04_translated_deme_best mx h : gen_deme_best_individual mx h = best_of mx (concat (concat h)).
+Proof. exact (gen_deme_best_individual_eq mx h). Qed.
+Print Assumptions C04_translated_deme_best.
+Theorem C04_translated_deme_current_best mx h : gen_deme_best_current_individual mx h = best_of mx (last (concat h) []).
+Proof. exact (gen_deme_best_current_individual_eq mx h). Qed.
+Print Assumptions C04_translated_deme_current_best.
+Theorem C04_translated_deme_best_is_member_and_best mx h b : gen_deme_best_individual mx h = Some b ->
+  In b (concat (concat h)) /\ forall x, In x (concat (concat h)) -> better mx x b = false.
+Proof. exact (deme_best_is_member_and_best mx h b). Qed.
+Print Assumptions C04_translated_deme_best_is_member_and_best.
+(* DemeTree.best_individual, computed by the code as the best of the demes' bests, is a stored individual of some deme and no stored
+   individual of any deme is strictly better *)
+Theorem C04_translated_tree_best mx lv b : gen_tree_best_individual mx lv = Some b ->
+  (exists h, In h (all_demes_of lv) /\ In b (concat (concat h))) /\
+  (forall h x, In h (all_demes_of lv) -> In x (concat (concat h)) -> better mx x b = false).
+Proof. exact (tree_best_is_member_and_best mx lv b). Qed.
+Print Assumptions C04_translated_tree_best.
+Example C04_translated_example :
+  gen_tree_best_individual false [[ [[[5; 3]; [4; 4]]; [[2; 9]]] ]; [ [[[7]]]; [[[1; 8]]; [[6]]] ]]%Z = Some 1%Z /\
+  gen_tree_best_individual true  [[ [[[5; 3]; [4; 4]]; [[2; 9]]] ]; [ [[[7]]]; [[[1; 8]]; [[6]]] ]]%Z = Some 9%Z /\
+  gen_deme_best_current_individual false [[[5; 3]; [4; 4]]; [[2; 9]]]%Z = Some 2%Z /\ gen_tree_best_individual false [[]; []] = None.
+Proof. vm_compute. repeat split. Qed.
